@@ -5,8 +5,9 @@
    models of C11 (OutputM.v, Markup.v).
    Inputs that come from outside clikit are inputs of the model: the frames of the traceback (file name, line number,
    function, source line, file content as the crashtest Frame reports them), the token streams of tokenize for the file
-   contents and the stripped frame lines (or the fact that tokenize raised), whether re.match(ignore, filename) holds,
-   the working and home directories. *)
+   contents and the stripped frame lines (or the fact that tokenize / reading the file raised - the renderer then leaves
+   the snippet out, resp. shows the frame's line plain: render_lines never is Err), whether re.match(ignore, filename)
+   holds, the working and home directories. *)
 From Clikit Require Import Base.Prelude Base.Res Model.Conv Model.Markup Model.OutputM.
 
 (* ---- Python string helpers ---- *)
@@ -180,7 +181,8 @@ Definition code_snippet (u : ui) (toks : list token) (line before after : Z) : l
   firstn (Z.to_nat (after + before + 1)) (skipn (Z.to_nat offset) numbered).
 
 (* ---- frames and crashtest's FrameCollection.compact ---- *)
-(* what tokenize did on a text: the tokens, TokenError, or another exception (IndentationError ...) *)
+(* what tokenize did on a text: the tokens, TokenError, or another exception (IndentationError ...; for the content of
+   a file also: reading the file raised, e.g. UnicodeDecodeError).  The renderer catches all of them (fix caca46b). *)
 Inductive tokres := TokOk (toks : list token) | TokError | TokOtherExc.
 Record frame := { f_file : str; f_ignored : bool; f_lineno : Z; f_func : str; f_line : str;
                   f_content : tokres; f_linetoks : tokres }.
@@ -268,24 +270,32 @@ Definition s_b_close : str := ([60;47;98;62]%N) (* </b> *).
 Definition location (c : tcfg) (file_style : str) (f : frame) : str :=
   literal (rel_path c (f_file f)) file_style ++ s_colon_b ++ dec_text (f_lineno f) ++ s_in ++ literal (f_func f) st_cyan ++ close_any.
 
+(* ExceptionTrace._code_snippet: Highlighter.code_snippet on the content of the frame's file, inside try / except
+   Exception: when the file cannot be read (frame.file_content raises, e.g. UnicodeDecodeError) or tokenize rejects what
+   is on disk (TokenError, IndentationError ...) there are no snippet lines - the report goes on without them.  The
+   result type stays res (the wire format and the callers do not change); the value is always Ok. *)
 Definition snippet_of (c : tcfg) (content : tokres) (line before after : Z) : res (list str) :=
   match content with
   | TokOk toks => Ok (code_snippet (ui_of (t_utf8 c)) toks line before after)
-  | TokError => Err (Other 10)
-  | TokOtherExc => Err (Other 9)
+  | TokError => Ok []
+  | TokOtherExc => Ok []
   end.
 
-(* the line(s) under a frame of the stack trace *)
+(* the line(s) under a frame of the stack trace: at debug verbosity the snippet (2 lines around the frame's line; none
+   when the source is unreadable); below it the frame's own line, highlighted - highlighted_lines(line)[0] inside
+   try / except Exception: whatever goes wrong there (tokenize raises, or no line comes out: IndexError) the line is
+   shown plain (Highlighter.plain_line).  Always Ok. *)
 Definition frame_code (c : tcfg) (ind w : Z) (f : frame) : res (list wline) :=
   if t_debug c then
     do ls <- snippet_of c (f_content f) (f_lineno f) 2 2;
     Ok (flat_map (fun l => render_line ind (rjust [32%N] w ++ l) false 1) ls)
   else
-    do code <- match f_linetoks f with
-               | TokOk toks => match split_to_lines toks with l :: _ => Ok l | [] => Err (Other 3) end
-               | TokError => Ok (styled HDefault (strip (f_line f)))
-               | TokOtherExc => Err (Other 9)
-               end;
+    let plain := styled HDefault (strip (f_line f)) in
+    let code := match f_linetoks f with
+                | TokOk toks => match split_to_lines toks with l :: _ => l | [] => plain end
+                | TokError => plain
+                | TokOtherExc => plain
+                end in
     Ok (render_line ind (rjust [32%N] w ++ [32; 32]%N ++ code) false 0).
 
 Fixpoint frames_lines (c : tcfg) (ind w : Z) (fs : list frame) (i : Z) : res (list wline * Z) :=
